@@ -73,7 +73,7 @@ def no_exc(label: str | None) -> bool:
 
 
 def normal_only(label: str | None) -> bool:
-    return label not in ("exc", "raise")
+    return label not in ("exc", "raise", "reraise")
 
 
 class BoolFacts:
